@@ -13,7 +13,7 @@ from dsim.c14 import genscripts
 
 def with_id(op: dict) -> dict:
     """Op identity = everything that determines the expected result (not faults / reuse / counting)."""
-    core = {k: v for k, v in op.items() if k not in ("fault", "reuse", "count_calls", "id", "family", "shared_filename")}
+    core = {k: v for k, v in op.items() if k not in ("fault", "reuse", "count_calls", "id", "family", "shared_filename", "mp_first", "mp_kwargs")}
     op["id"] = sha(jdump(core).encode())
     return op
 
